@@ -37,6 +37,7 @@ const (
 	c8useX                 // trace(int(x))
 	c8useY                 // trace(int(y))
 	c8constX               // const x = K (afterwards x cannot be assigned in this scope and the scopes nested in it)
+	c8halfX                // trace(int(x / 2 * 2)): tells an integer x from a float64 x
 	c8leafEnd
 	c8if       // if int(x) > 500 {A}
 	c8ifElse   // if int(x) > 500 {A} else {B}
@@ -47,6 +48,8 @@ const (
 	c8rangeX   // for _, x := range two {A}
 	c8rangeXY  // for x, y := range two {A}
 	c8switch   // switch { case int(y) > 1500: A default: B }
+	c8rangeFX  // for _, x := range twof {A}   (x is a float64)
+	c8forFX    // for x := 0.0; x < 2; x++ {A}  (x is a float64)
 )
 
 type c8stmt struct {
@@ -102,7 +105,7 @@ func (g *c8gen) stmts(size, ctx, depth int) []c8sc {
 	rest := size - 1
 	inner := func(k c8kind) int { // context at the start of a nested block: nothing declared here; x stays a constant unless the clause declares it
 		switch k {
-		case c8ifInit, c8ifInitEl, c8forX, c8rangeX, c8rangeXY:
+		case c8ifInit, c8ifInitEl, c8forX, c8rangeX, c8rangeXY, c8rangeFX, c8forFX:
 			return 0
 		}
 		return ctx & 8
@@ -130,6 +133,8 @@ func (g *c8gen) stmts(size, ctx, depth int) []c8sc {
 	one(c8rangeX)
 	one(c8rangeXY)
 	two(c8switch)
+	one(c8rangeFX)
+	one(c8forFX)
 	return out
 }
 
@@ -208,6 +213,8 @@ func (w *c8render) stmt(s *c8stmt, ind string) {
 	case c8constX:
 		p("const x = %d", w.nextK())
 		p("_ = x")
+	case c8halfX:
+		p("trace(int(x / 2 * 2))")
 	case c8useX:
 		p("trace(int(x))")
 	case c8useY:
@@ -250,6 +257,15 @@ func (w *c8render) stmt(s *c8stmt, ind string) {
 		fmt.Fprintf(&w.b, in+"_, _ = x, y\n")
 		w.block(s.blocks[0], in)
 		p("}")
+	case c8rangeFX:
+		p("for _, x := range twof {")
+		fmt.Fprintf(&w.b, in+"_ = x\n")
+		w.block(s.blocks[0], in)
+		p("}")
+	case c8forFX:
+		p("for x := 0.0; x < 2; x++ {")
+		w.block(s.blocks[0], in)
+		p("}")
 	case c8switch:
 		p("switch {")
 		p("case int(y) > 1500:")
@@ -269,8 +285,9 @@ func c8body(prog []*c8stmt) string {
 // reference: environment chain -----------------------------------------------------
 
 type c8var struct {
-	v    int
-	byte bool
+	v     int
+	byte  bool
+	float bool // a float64 holding an integral value
 }
 
 type c8env struct {
@@ -369,6 +386,13 @@ func (it *c8interp) stmt(s *c8stmt, base int, e *c8env) {
 	case c8incX:
 		v := e.lookup("x")
 		v.set(v.v + 1)
+	case c8halfX:
+		v := e.lookup("x")
+		if v.float {
+			it.out = append(it.out, v.v)
+		} else {
+			it.out = append(it.out, v.v/2*2)
+		}
 	case c8useX:
 		it.out = append(it.out, e.lookup("x").v)
 	case c8useY:
@@ -418,6 +442,20 @@ func (it *c8interp) stmt(s *c8stmt, base int, e *c8env) {
 			sc.vars["y"] = &c8var{v: val}
 			it.block(s.blocks[0], base, sc.child())
 		}
+	case c8rangeFX:
+		for _, val := range []int{10, 20} {
+			sc := e.child()
+			sc.vars["x"] = &c8var{v: val, float: true}
+			it.block(s.blocks[0], base, sc.child())
+		}
+	case c8forFX:
+		sc := e.child()
+		x := &c8var{float: true}
+		sc.vars["x"] = x
+		for n := 0; x.v < 2 && n < 10; n++ {
+			it.block(s.blocks[0], base, sc.child())
+			x.set(x.v + 1)
+		}
 	case c8switch:
 		if e.lookup("y").v > 1500 {
 			it.block(s.blocks[0], base, e.child())
@@ -440,7 +478,7 @@ func c8ref(prog []*c8stmt) string {
 
 func c8pkgSource(pkg string, bodies []string) string {
 	var b strings.Builder
-	b.WriteString("package " + pkg + "\n\nimport \"fmt\"\n\nvar x = 1000\nvar y = 2000\nvar out []int\nvar two = []int{10, 20}\n\n")
+	b.WriteString("package " + pkg + "\n\nimport \"fmt\"\n\nvar x = 1000\nvar y = 2000\nvar out []int\nvar two = []int{10, 20}\nvar twof = []float64{10, 20}\n\n")
 	b.WriteString("func trace(k int) {\n\tout = append(out, k)\n}\n\nfunc Reset() {\n\tx = 1000\n\ty = 2000\n\tout = []int{}\n}\n\nfunc Out() string {\n\tout = append(out, x, y)\n\treturn fmt.Sprint(out)\n}\n\n")
 	for i, body := range bodies {
 		fmt.Fprintf(&b, "func F%d() {\n%s}\n\n", i, body)
@@ -532,7 +570,7 @@ func c8run(r *report.Run) {
 	if r.Tier == "thorough" {
 		maxN = 6
 	}
-	r.Rule(fmt.Sprintf("all Go-valid programs over {x, y} with <=%d statement nodes, nesting <=%d, blocks of 1-2 statements: 12 leaf forms (x := K, y := K, var x int = K, var x int, var x uint8 = 250, const x = K, x, y := K, K', x = K, y = K, x++, read x, read y) and 9 block-forming constructs; every K distinct; the trace of values read plus the final package-level x, y is compared; non-trivial = program in which a name is declared in a nested scope and x or y is read or written after that scope closed", maxN, depth))
+	r.Rule(fmt.Sprintf("all Go-valid programs over {x, y} with <=%d statement nodes, nesting <=%d, blocks of 1-2 statements: 13 leaf forms (x := K, y := K, var x int = K, var x int, var x uint8 = 250, const x = K, x, y := K, K', x = K, y = K, x++, read x, read y, read x/2*2) and 11 block-forming constructs (two of them declare a float64 x in their clause); every K distinct; the trace of values read plus the final package-level x, y is compared; non-trivial = program in which a name is declared in a nested scope and x or y is read or written after that scope closed", maxN, depth))
 	r.Assume("environment-chain interpreter is the reference, validated against the Go toolchain on the complete <=4-node layer in every run and on all templates", "bare blocks, closures, labels and goto are outside the supported subset")
 	g := &c8gen{}
 	cache := oracle.OpenCache("c08")
